@@ -75,3 +75,48 @@ func cmdWhy(args []string) int {
 	fmt.Println("no writer reachable")
 	return 0
 }
+
+// cmdWriters: govc writers <key-substring>: functions (falco) whose transitive effect hits the key.
+func cmdWriters(args []string) int {
+	P, err := loadProgram(repoRoot(), []string{"./..."})
+	if err != nil {
+		fmt.Println(err)
+		return 2
+	}
+	var names []string
+	for fn := range P.allFuncs {
+		if !inFalco(fn) || fn.Blocks == nil {
+			continue
+		}
+		if len(args) > 1 && !strings.Contains(shortFn(fn), args[1]) {
+			continue
+		}
+		eff := P.effectOf(fn)
+		for k := range eff.Keys {
+			if strings.Contains(k, args[0]) {
+				d := ""
+				for dk := range P.directEffect(fn).Keys {
+					if strings.Contains(dk, args[0]) {
+						d = " (direct)"
+					}
+				}
+				names = append(names, shortFn(fn)+d)
+				break
+			}
+		}
+	}
+	sortStrings(names)
+	for _, n := range names {
+		fmt.Println(n)
+	}
+	fmt.Println(len(names), "functions")
+	return 0
+}
+
+func sortStrings(s []string) {
+	for i := 1; i < len(s); i++ {
+		for j := i; j > 0 && s[j] < s[j-1]; j-- {
+			s[j], s[j-1] = s[j-1], s[j]
+		}
+	}
+}
